@@ -14,13 +14,13 @@ CPU = "msp430"
 M16 = 0xffff
 M32 = 0xffffffff
 
-LEAN_MODULES = ["NakenVerif.Msp430.RoundTrip"]      # imports AsmSound/AsmRange (encoder) and DisLocal/DisRows/DisSound (decoder)
+LEAN_MODULES = ["NakenVerif.Msp430.Fixpoint"]      # imports RoundTrip -> AsmSound/AsmRange (encoder), DisLocal/DisRows/DisSound (decoder)
 P = "NakenVerif.Msp430."
 C01_THEOREMS = [P + n for n in (
     "msp430_encode_sound", "msp430_optimize_only_rewrites_index0", "msp430_encode_len", "msp430_walk_exact",
-    "msp430_fixpoint_structured_partial", "arch_len", "arch_reading", "table_spec_rows", "table_cmd_codes",
-    "table_core_types", "table_no_shadow", "table_core_rows", "table_core_names", "table_dis_kinds",
-    "msp430_pcinc_counterexample")]
+    "msp430_fixpoint_structured", "encode_core_form", "arch_len", "arch_reading", "table_spec_rows", "table_cmd_codes",
+    "table_core_types", "table_no_shadow", "table_core_rows", "table_core_names", "table_dis_kinds", "table_no_sbb_row",
+    "table_alias_zero_commented", "msp430_pcinc_counterexample")]
 C06_THEOREMS = [P + n for n in (
     "msp430_encode_rejects_unfit", "msp430_encode_injective_mod_field", "msp430_encode_injective_imm16",
     "msp430_encode_exact_field", "msp430_jump_range", "table_alias_rows", "table_jump_rows", "table_spec_rows")]
@@ -724,6 +724,34 @@ def gen_walks(ctx, n):
 # =============================================================================================
 # helpers
 # =============================================================================================
+def _killed(a):
+    """the harness process was killed from outside (SIGTERM/SIGKILL, e.g. machine load / another job's cleanup): not an
+    answer of the code under test"""
+    return a.startswith("DIED rc=-15") or a.startswith("DIED rc=-9") or a == "MISSING"
+
+
+def impl(ctx, lines):
+    """ctx.impl with one retry of the lines whose process was killed from outside"""
+    res = ctx.impl(lines)
+    bad = [i for i, a in enumerate(res) if _killed(a)]
+    if bad and len(bad) < max(50, len(lines) // 2):
+        again = ctx.impl([lines[i] for i in bad])
+        for i, a in zip(bad, again):
+            res[i] = a
+    return res
+
+
+def both(ctx, lines):
+    h, d = ctx.both(lines)
+    bad = [i for i, a in enumerate(h) if _killed(a)]
+    if bad and len(bad) < max(50, len(lines) // 2):
+        again = ctx.impl([lines[i] for i in bad])
+        for i, a in zip(bad, again):
+            h[i] = a
+    return h, d
+
+
+
 def parse_dis(ans):
     if ans.startswith("DIED") or ans == "MISSING" or ans == "bad-op":
         return None
@@ -810,7 +838,7 @@ def c01_correspondence(ctx, corr):
     cases = [c for c in gen_cases(ctx) if fragment_ok(c.text)]
     ctx.notes["m4_c01_cases"] = cases
     lines = corpus_lines("C01") + [c.line() for c in cases]
-    h, d = ctx.both(lines)
+    h, d = both(ctx, lines)
     ctx.notes["m4_c01_impl"] = h[len(lines) - len(cases):]
     compare(corr, lines, h, d, "msp430.asm1")
     corr["streams"]["msp430.asm1"]["with -optimize"] = sum(1 for c in cases if "o" in c.opts)
@@ -826,14 +854,14 @@ def c01_correspondence(ctx, corr):
     dl = sorted(dl)
     rt = [l for l in dl if l.startswith("rt ")]
     dw = [l for l in dl if not l.startswith("rt ")]
-    h2, d2 = ctx.both(dw)
+    h2, d2 = both(ctx, dw)
     compare(corr, dw, h2, d2, "msp430.dis+walk(emitted)")
     ctx.notes["m4_c01_rt"] = rt
 
 
 def rt_expected(ctx, items):
     """real pipeline for rt lines: dis -> text -> asm1 at the same address/options"""
-    dis = ctx.impl(["dis %s %x %s" % (CPU, a, words_hex(ws)) for a, o, ws in items])
+    dis = impl(ctx, ["dis %s %x %s" % (CPU, a, words_hex(ws)) for a, o, ws in items])
     al, idx = [], []
     for (a, o, ws), r in zip(items, dis):
         p = parse_dis(r)
@@ -842,13 +870,13 @@ def rt_expected(ctx, items):
             continue
         idx.append(len(al))
         al.append("asm1 %s %x %s %s" % (CPU, a, o, nvlib.hexs(p[1])))
-    res = ctx.impl(al)
+    res = impl(ctx, al)
     return [None if i is None else res[i] for i in idx], dis
 
 
 def check_c01(ctx, cases, stats, impl=None):
     fails = []
-    ans = impl if impl is not None else ctx.impl([c.line() for c in cases])
+    ans = impl if impl is not None else impl(ctx, [c.line() for c in cases])
     acc = []
     for c, a in zip(cases, ans):
         merge_counts(stats, "asm1", 1)
@@ -892,7 +920,7 @@ def check_c01(ctx, cases, stats, impl=None):
         e = c.eff()
         lines.append("dis %s %x %s" % (CPU, e, words_hex(ws)))
         lines.append("walk %s %x %x %s" % (CPU, e, e + 2 * len(ws) - 1, words_hex(ws)))
-    res = ctx.impl(lines)
+    res = impl(ctx, lines)
     re_lines, re_idx = [], []
     for n, (c, ws) in enumerate(acc):
         d, wk = parse_dis(res[2 * n]), res[2 * n + 1]
@@ -915,7 +943,7 @@ def check_c01(ctx, cases, stats, impl=None):
                           "case": c.to_dict()})
         re_lines.append("asm1 %s %x %s %s" % (CPU, e, c.opts, nvlib.hexs(d[1])))
         re_idx.append((c, ws, d[1]))
-    res2 = ctx.impl(re_lines)
+    res2 = impl(ctx, re_lines)
     for (c, ws, txt), a in zip(re_idx, res2):
         if a.startswith("DIED") or a in ("MISSING", "bad-op"):
             fails.append({"sig": crash_sig("C01", txt, a), "input": "%s @%x" % (txt, c.eff()), "expected": "bytes or an error",
@@ -974,7 +1002,7 @@ def c01_oracle(ctx, orc):
 def c06_correspondence(ctx, corr):
     cases = [c for c in gen_cases(ctx, "boundary") if fragment_ok(c.text)]
     lines = corpus_lines("C06") + [c.line() for c in cases]
-    h, d = ctx.both(lines)
+    h, d = both(ctx, lines)
     ctx.notes["m4_c06_cases"] = cases
     ctx.notes["m4_c06_impl"] = h[len(lines) - len(cases):]
     compare(corr, lines, h, d, "msp430.asm1(boundary)")
@@ -983,7 +1011,7 @@ def c06_correspondence(ctx, corr):
 
 def check_c06(ctx, cases, stats, impl=None):
     fails = []
-    ans = impl if impl is not None else ctx.impl([c.line() for c in cases])
+    ans = impl if impl is not None else impl(ctx, [c.line() for c in cases])
     groups = {}
     for c, a in zip(cases, ans):
         merge_counts(stats, "asm1", 1)
@@ -1065,7 +1093,7 @@ def c07_correspondence(ctx, corr):
     items = c07_items(ctx)
     ctx.notes["m4_c07_items"] = items
     lines = corpus_lines("C07") + ["dis %s %x %s" % (CPU, a, words_hex(ws)) for a, ws in items]
-    h, d = ctx.both(lines)
+    h, d = both(ctx, lines)
     ctx.notes["m4_c07_dis"] = h[len(lines) - len(items):]
     compare(corr, lines, h, d, "msp430.dis(all 65536 first words + structured)")
     # the assembler model on every disassembly text the real decoder produced (inside the parser fragment)
@@ -1075,7 +1103,7 @@ def c07_correspondence(ctx, corr):
         if p and p[0] != "nonul" and fragment_ok(p[1]) and a % 2 == 0:
             tl.add("asm1 %s %x - %s" % (CPU, a, nvlib.hexs(p[1])))
     tl = sorted(tl)
-    h2, d2 = ctx.both(tl)
+    h2, d2 = both(ctx, tl)
     ctx.notes["m4_c07_re"] = dict(zip(tl, h2))
     compare(corr, tl, h2, d2, "msp430.asm1(disassembly text)")
     # the decoder's structured reading (Disasm.toStmt, what the C07 theorems are about) re-assembled by the model
@@ -1104,7 +1132,7 @@ def c07_correspondence(ctx, corr):
 def check_c07(ctx, items, stats, dis=None, re_cache=None, opts="-"):
     fails = []
     if dis is None:
-        dis = ctx.impl(["dis %s %x %s" % (CPU, a, words_hex(ws)) for a, ws in items])
+        dis = impl(ctx, ["dis %s %x %s" % (CPU, a, words_hex(ws)) for a, ws in items])
     todo = []
     for (a, ws), r in zip(items, dis):
         merge_counts(stats, "words", 1)
@@ -1124,7 +1152,7 @@ def check_c07(ctx, items, stats, dis=None, re_cache=None, opts="-"):
         res = [re_cache[l] for l in lines]
     else:
         uniq = sorted(set(lines))
-        got = dict(zip(uniq, ctx.impl(uniq)))
+        got = dict(zip(uniq, impl(ctx, uniq)))
         res = [got[l] for l in lines]
     again = []
     for (a, ws, t), r in zip(todo, res):
@@ -1138,7 +1166,7 @@ def check_c07(ctx, items, stats, dis=None, re_cache=None, opts="-"):
             again.append((a, ws, t, r[3:]))
         else:
             merge_counts(stats, "text_accepted_other_layout", 1)
-    res3 = ctx.impl(["dis %s %x %s" % (CPU, a, b) for a, ws, t, b in again])
+    res3 = impl(ctx, ["dis %s %x %s" % (CPU, a, b) for a, ws, t, b in again])
     for (a, ws, t, b), r in zip(again, res3):
         p = parse_dis(r)
         if b == words_hex(ws)[:len(b)]:
@@ -1194,11 +1222,11 @@ def c08_correspondence(ctx, corr):
     walks = gen_walks(ctx, ctx.scale(800, 8000))
     ctx.notes["m4_c08_items"], ctx.notes["m4_c08_walks"] = items, walks
     lines = corpus_lines("C08") + ["dis %s %x %s" % (CPU, a, b) for a, b in items]
-    h, d = ctx.both(lines)
+    h, d = both(ctx, lines)
     ctx.notes["m4_c08_dis"] = h[len(lines) - len(items):]
     compare(corr, lines, h, d, "msp430.dis(all patterns)")
     wl = ["walk %s %x %x %s" % (CPU, s, e, b.hex()) for s, e, b in walks]
-    h2, d2 = ctx.both(wl)
+    h2, d2 = both(ctx, wl)
     ctx.notes["m4_c08_walk_impl"] = h2
     compare(corr, wl, h2, d2, "msp430.walk")
 
@@ -1207,7 +1235,7 @@ def check_c08_dis(ctx, items, stats, dis=None):
     rng = ctx.rng
     fails = []
     if dis is None:
-        dis = ctx.impl(["dis %s %x %s" % (CPU, a, b) for a, b in items])
+        dis = impl(ctx, ["dis %s %x %s" % (CPU, a, b) for a, b in items])
     loc_lines, loc_idx = [], []
     for (a, b), r in zip(items, dis):
         merge_counts(stats, "dis", 1)
@@ -1236,7 +1264,7 @@ def check_c08_dis(ctx, items, stats, dis=None):
             if first + tail != b:
                 loc_lines.append("dis %s %x %s" % (CPU, a, first + tail))
                 loc_idx.append((a, b, r))
-    res = ctx.impl(loc_lines)
+    res = impl(ctx, loc_lines)
     for (a, b, r), l, r2 in zip(loc_idx, loc_lines, res):
         merge_counts(stats, "locality_checks", 1)
         if r2 != r:
@@ -1248,7 +1276,7 @@ def check_c08_dis(ctx, items, stats, dis=None):
 def check_c08_walk(ctx, walks, stats, impl=None):
     fails = []
     if impl is None:
-        impl = ctx.impl(["walk %s %x %x %s" % (CPU, s, e, b.hex()) for s, e, b in walks])
+        impl = impl(ctx, ["walk %s %x %x %s" % (CPU, s, e, b.hex()) for s, e, b in walks])
     q = []
     parsed = []
     for (s, e, b), r in zip(walks, impl):
@@ -1266,7 +1294,7 @@ def check_c08_walk(ctx, walks, stats, impl=None):
                 off = a - s
                 q.append("dis %s %x %s" % (CPU, a, (b[off:off + 8] if 0 <= off < len(b) else b"").hex() or "00"))
     lens = []
-    for r in ctx.impl(q):
+    for r in impl(ctx, q):
         p = parse_dis(r)
         lens.append(p[0] if p and p[0] != "nonul" else None)
     k = 0
